@@ -11,9 +11,18 @@ Oracle calibration: the harness's evaluator of the documented formula is first r
 Binding B: random whole-model runs (model()): depth and transmittance against the calibrated
            evaluator, the consequence clauses of the statement, and the early-exit protocol of
            every layer validated by TLC (+ canary).
+Round 4:   spec/MC_TransK.tla -- the correlated-k opacity family (opacity_method = ktables) with magnitudes up
+           to underflow at every quadrature point (mutants "guard", "renorm" refuted by TLC); vectors bound to
+           the real AbsorptionContribution in k-table mode; the same family added to the whole-model runs
+           (depth, bounds, early exit, monotone under scaling).
+           spec/MC_TransRoutes.tla -- the three public entry points x grid sizes on ONE long-lived model
+           (mutants "stale-size", "accumulate", "keep-single" refuted by TLC); every exported history is
+           replayed and every returned entry compared with the documented integral of its own absorbers.
 """
+import json
 import math
 import random
+import re
 from fractions import Fraction
 
 import numpy as np
@@ -22,9 +31,13 @@ from ..core import Machinery, frac, close, validate_trace
 from ..fixtures import LayerOpacity, reset_caches
 from ..fx_model import (LN2, TableContribution, FixtureCIA, make_transmission, chord_sq, chord_table,
                         tau_layers, depth_of)
+from ..fx_c01k import (KMODE, KD, LayerKTable, GridTableContribution, quadrature, kd_cell, pow2_bounds,
+                       tau_layers_x)
 
 U = 1.0e6          # metres per spec length unit in the vector bindings
 CUT_SPEC = 14      # spec: exit when min tau >= 15 (integers, ln 2 units)  <=>  > 14
+KCAP = 8           # spec/Transmission.tla KCap: 2^-t is exported exactly up to t = KCap, bounded beyond
+GASES = ['H2O', 'CH4']
 WN = np.array([1000.0, 2000.0, 3000.0, 4000.0, 5000.0])
 
 
@@ -50,6 +63,19 @@ def calibrate(vecs):
             tau, full, _ = tau_layers(a, None, Lr, CUT_SPEC, zero=0)
             if tau != out['tau'] or full != out['full']:
                 raise Machinery('oracle calibration failed (acc) on %r: %r vs %r' % (inp, tau, out['tau']))
+            tau, full, _ = tau_layers_x(a, Lr, CUT_SPEC, zero=0)      # the evaluator used when a k-distributed absorber is present
+            if tau != out['tau'] or full != out['full']:
+                raise Machinery('oracle calibration failed (acc, extended evaluator) on %r' % (inp,))
+        elif fam == 'kd':
+            kk, L = inp['k'], inp['L']
+            nl = len(L)
+            Lr = [L[j][:nl - j] for j in range(nl)]
+            wts = [Fraction(x, inp['wd']) for x in inp['wts']]
+            lo, hi = pow2_bounds(KCAP)
+            for j in range(nl):
+                for w in range(len(kk[0][0])):
+                    if kd_cell(kk, wts, Lr, j, w, lo) != frac(out['lo'][j][w]) or kd_cell(kk, wts, Lr, j, w, hi) != frac(out['hi'][j][w]):
+                        raise Machinery('oracle calibration failed (kd) on %r layer %d wn %d' % (inp, j, w))
         elif fam == 'abs':
             r = [Fraction(x) for x in inp['r']]
             T = [[Fraction(1, 2 ** t)] for t in inp['t']]
@@ -165,13 +191,89 @@ def vec_abs(ctx, v):
                 detail='depth %r, spec %r' % (float(depth[0]), want), vector=v)
 
 
+_kmodels = {}
+
+
+def k_model(nl):
+    """A real TransmissionModel built in k-table mode whose only absorber is H2O served by a LayerKTable
+    reading the coefficients of the current vector from `hold`."""
+    if nl not in _kmodels:
+        from taurex.data.profiles.chemistry import TaurexChemistry, ConstantGas
+        from taurex.contributions import AbsorptionContribution
+        KMODE.enable(GASES, WN)
+        chem = TaurexChemistry(fill_gases=['H2', 'He'], ratio=0.17)
+        chem.addGas(ConstantGas('H2O', mix_ratio=1e-3))
+        m = make_transmission(nl, chemistry=chem)
+        m.add_contribution(AbsorptionContribution())
+        m.build()
+        _kmodels[nl] = (m, dict(k=None))
+    return _kmodels[nl]
+
+
+def vec_kd(ctx, v):
+    """spec vector of the correlated-k family -> the real AbsorptionContribution (prepare + numba kernel) in
+    k-table mode inside the real path_integral; the layer transmittances must lie within the exact bounds."""
+    from taurex.cache.ktablecache import KTableCache
+    inp, out = v['inp'], v['out']
+    kk, L = inp['k'], inp['L']
+    ng, nl, nw = len(kk), len(L), len(kk[0][0])
+    KMODE.enable(GASES, WN)
+    m, hold = k_model(nl)
+    inject_geometry(m, [50 + 2 * i for i in range(nl + 1)])
+    dens = np.asarray(m.densityProfile, dtype=float)
+    press = np.asarray(m.pressureProfile, dtype=float)
+    mix = np.asarray(m.chemistry.get_gas_mix_profile('H2O'), dtype=float)
+    tab = np.zeros((nl, len(WN), ng))
+    for g in range(ng):
+        tab[:, :nw, g] = np.array(kk[g], dtype=float) * LN2 / U / (dens * mix)[:, None]
+    wts = [x / float(inp['wd']) for x in inp['wts']]
+    KTableCache().clear_cache()
+    KTableCache().add_opacity(LayerKTable('H2O', WN, lambda T, P: tab[int(np.argmin(np.abs(np.log(press) - math.log(P))))], wts))
+    wn = WN[:nw]
+    ltab = [np.array(L[j][:nl - j], dtype=float) * U for j in range(nl)]
+    m.compute_path_length_old = lambda dz, _l=ltab: _l
+    ok, detail = True, ''
+    try:
+        for c in m.contribution_list:
+            c.prepare(m, wn)
+        _, T = m.path_integral(wn, False)
+        T = np.asarray(T, dtype=float)
+        if T.shape != (nl, nw):
+            ok, detail = False, 'transmittance array of shape %r' % (T.shape,)
+        for j in range(nl if ok else 0):
+            for w in range(nw):
+                lo, hi = float(frac(out['lo'][j][w])), float(frac(out['hi'][j][w]))
+                if not (lo * (1 - 1e-12) <= T[j, w] <= hi * (1 + 1e-12)):
+                    ok, detail = False, 'layer %d wn %d: transmittance %r outside the documented [%r, %r]' % (j, w, float(T[j, w]), lo, hi)
+                    break
+            if not ok:
+                break
+    except Machinery:
+        raise
+    except Exception as e:   # noqa
+        ok, detail = False, '%s: %s' % (type(e).__name__, e)
+    finally:
+        del m.compute_path_length_old
+    sat = any(frac(out['lo'][j][w]) == 0 for j in range(nl) for w in range(nw))
+    ctx.verdict('ktable_transmittance', ok, cls='kernel:ktable:%s' % ('saturated' if sat else 'exact'), detail=detail, vector=v)
+
+
 # ----------------------------------------------------------------------------
 # binding B: whole-model runs
 # ----------------------------------------------------------------------------
 
-def build_random_model(rng, nl, scale=1.0, spec=None):
-    """A real TransmissionModel with exact per-layer opacities.  `spec` replays a stored scenario."""
+def k_extra(rng, spec):
+    """the correlated-k dimension of a whole-model scenario: number / kind of quadrature points, which gas
+    has coefficients that differ across the quadrature points and over how many decades."""
+    return dict(kt=True, ng=rng.choice([1, 2, 3, 4, 8]), quad=rng.choice(['gauss', 'dyadic']),
+                kgas=rng.randrange(spec['ngas']), gspread=rng.choice([0.0, 0.5, 2.0, 4.0]))
+
+
+def build_random_model(rng, nl, scale=1.0, spec=None, extra=None):
+    """A real TransmissionModel with exact per-layer opacities.  `spec` replays a stored scenario; `extra`
+    overrides / adds keys of a freshly drawn one (e.g. the correlated-k keys of k_extra)."""
     from taurex.cache import OpacityCache, CIACache
+    from taurex.cache.ktablecache import KTableCache
     from taurex.data.profiles.chemistry import TaurexChemistry, ConstantGas
     from taurex.data.profiles.temperature import Isothermal
     from taurex.data.profiles.temperature.temparray import TemperatureArray
@@ -195,9 +297,23 @@ def build_random_model(rng, nl, scale=1.0, spec=None):
             # a second instance of the same contribution class (same name), which add_contribution accepts
             table_dup=rng.random() < 0.5, tabmag2=rng.choice([-28, -25, -23]),
         )
+        if extra:
+            spec.update(extra(rng, spec) if callable(extra) else extra)
+    kt = bool(spec.get('kt'))
+    if kt:
+        KMODE.enable(GASES, WN)        # opacity_method = ktables; the chemistry finds both gases on the k-table path
+    else:
+        KMODE.disable()
     reset_caches()
-    names = ['H2O', 'CH4'][:spec['ngas']]
+    names = GASES[:spec['ngas']]
     nl = spec['nl']
+    kinfo = None
+    if kt:
+        xq, wq = quadrature(spec['ng'], spec['quad'])
+        # coefficients rise with the quadrature abscissa (as in real k-tables) for ONE gas; the others have the
+        # same coefficient at every quadrature point, so that the sum over gases needs no overlap assumption
+        kinfo = dict(wts=wq, gfac={g: ([10.0 ** (spec['gspread'] * (x - 0.5)) for x in xq] if i == spec['kgas'] % spec['ngas']
+                                        else [1.0] * len(xq)) for i, g in enumerate(names)})
 
     def mk(idx):
         def f(T, P):
@@ -207,12 +323,18 @@ def build_random_model(rng, nl, scale=1.0, spec=None):
             return (10.0 ** spec['mag'][idx]) * scale * (P / 1e3) ** spec['slope'][idx] * np.array(spec['shape'][idx]) * 1e4
         return f
     xs = {}
+    cia_rows = {}
     for i, g in enumerate(names):
         xs[g] = mk(i)
-        OpacityCache().add_opacity(LayerOpacity(g, WN, xs[g]))
+        if kt:
+            fac = np.array(kinfo['gfac'][g])
+            KTableCache().add_opacity(LayerKTable(g, WN, (lambda T, P, _f=xs[g], _q=fac: _f(T, P)[:, None] * _q[None, :]), kinfo['wts']))
+        else:
+            OpacityCache().add_opacity(LayerOpacity(g, WN, xs[g]))
     if spec['cia']:
         tab = np.array([[10.0 ** spec['ciamag'] * (1 + 0.1 * w) for w in range(len(WN))]])
         CIACache().add_cia(FixtureCIA('H2-He', WN, [1000.0], tab))
+        cia_rows['H2-He'] = tab[0].copy()
     chem = TaurexChemistry(fill_gases=['H2', 'He'], ratio=0.17)
     for i, g in enumerate(names):
         chem.addGas(ConstantGas(g, mix_ratio=spec['mix'][i]))
@@ -231,70 +353,159 @@ def build_random_model(rng, nl, scale=1.0, spec=None):
         if spec['tabmag'] is not None:
             sig[:] = 10.0 ** spec['tabmag'] * scale * np.linspace(1.0, 2.0, len(WN))[None, :]
             sig *= np.linspace(2.0, 0.5, nl)[:, None]
-        m.add_contribution(TableContribution('Table', sig))
+        m.add_contribution(GridTableContribution('Table', WN, sig))
         if spec.get('table_dup'):
             sig2 = 10.0 ** spec['tabmag2'] * scale * np.linspace(2.0, 1.0, len(WN))[None, :] * np.linspace(0.5, 1.5, nl)[:, None]
-            m.add_contribution(TableContribution('Table', sig2))
+            m.add_contribution(GridTableContribution('Table', WN, sig2))
     added = list(m.contribution_list)       # what was REGISTERED (all of the same evaluation order: build() keeps it)
     m.build()
     m._verif_xs = xs
     m._verif_added = added
+    m._verif_k = kinfo
+    m._verif_cia = cia_rows
     return m, spec
 
 
-def evaluate_run(m):
-    """Observed inputs of the path integral -> the documented integral (calibrated evaluator)."""
-    from taurex.contributions import CIAContribution
-    r = (m.planet.fullRadius + np.asarray(m.altitude_boundaries, dtype=float)).tolist()
+def component_tables(m, cols):
+    """The absorbers the model was GIVEN, per registered contribution and per component, on the native
+    columns `cols`: [(contribution, [(component name, a[k][w] | KD), ...]), ...] with a = cross-section x
+    number density (x density again for collision pairs).  Inputs are the fixture cross-sections, the mixing
+    ratios and the density profile; nothing is read from the contributions' own buffers except for classes
+    the harness did not supply."""
+    from taurex.contributions import AbsorptionContribution, RayleighContribution, CIAContribution
+    from taurex.util.scattering import rayleigh_sigma_from_name
+    cols = list(cols)
     dens = np.asarray(m.densityProfile, dtype=float)
-    A = []
-    from taurex.contributions import AbsorptionContribution
     Tl = np.asarray(m.temperatureProfile, dtype=float)
     Pl = np.asarray(m.pressureProfile, dtype=float)
+    wn = WN[cols]
     registered = getattr(m, '_verif_added', None) or list(m.contribution_list)
+    kinfo = getattr(m, '_verif_k', None)
+    out = []
     for c in registered:
+        comps = []
         if isinstance(c, AbsorptionContribution) and hasattr(m, '_verif_xs'):
             # molecular absorption: the inputs are the fixture cross-sections and the mixing ratios,
             # NOT the contribution's own buffer (so a wrong sum over species is seen here too)
-            sig = np.zeros((len(Pl), len(WN)))
             for g, f in m._verif_xs.items():
                 mix = np.asarray(m.chemistry.get_gas_mix_profile(g), dtype=float)
-                sig += np.array([f(Tl[k], Pl[k]) for k in range(len(Pl))]) * mix[:, None]
+                sig = np.array([np.asarray(f(Tl[k], Pl[k]))[cols] for k in range(len(Pl))]) * mix[:, None] * dens[:, None]
+                if kinfo:
+                    comps.append((g, KD([(sig * q).tolist() for q in kinfo['gfac'][g]], kinfo['wts'])))
+                else:
+                    comps.append((g, sig.tolist()))
+        elif isinstance(c, RayleighContribution):
+            for g in list(m.chemistry.activeGases) + list(m.chemistry.inactiveGases):
+                mix = np.asarray(m.chemistry.get_gas_mix_profile(g), dtype=float)
+                sg = rayleigh_sigma_from_name(g, wn)        # the cross-section of that scatterer (an input of C01)
+                if sg is None or mix.max() == 0.0:
+                    continue
+                comps.append((g, (np.asarray(sg, dtype=float)[None, :] * mix[:, None] * dens[:, None]).tolist()))
+        elif isinstance(c, CIAContribution) and getattr(m, '_verif_cia', None):
+            for pair, row in m._verif_cia.items():
+                one, two = pair.split('-')
+                fac = np.asarray(m.chemistry.get_gas_mix_profile(one), dtype=float) * np.asarray(m.chemistry.get_gas_mix_profile(two), dtype=float)
+                comps.append((pair, (row[cols][None, :] * fac[:, None] * (dens ** 2)[:, None]).tolist()))
         elif hasattr(c, '_sig'):        # fixture table: the given numbers, whether or not the model prepared it
-            sig = np.asarray(c._sig, dtype=float)
+            comps.append((c.name, (np.asarray(c._sig, dtype=float)[:, cols] * dens[:, None]).tolist()))
         else:
             sig = np.asarray(c.sigma_xsec, dtype=float)
-        if isinstance(c, CIAContribution):
-            A.append((sig * (dens ** 2)[:, None]).tolist())
-        else:
-            A.append((sig * dens[:, None]).tolist())
+            comps.append((c.name, (sig * ((dens ** 2) if isinstance(c, CIAContribution) else dens)[:, None]).tolist()))
+        out.append((c, comps))
+    return out
+
+
+def combine(comps, nl, nw):
+    """all components of one contribution together"""
+    if comps and isinstance(comps[0][1], KD):
+        ng = len(comps[0][1].wts)
+        Ag = [sum(np.array(a.Ag[q]) for _, a in comps).tolist() for q in range(ng)]
+        return KD(Ag, comps[0][1].wts)
+    tot = np.zeros((nl, nw))
+    for _, a in comps:
+        tot = tot + np.array(a)
+    return tot.tolist()
+
+
+def evaluate_run(m, cols=None, components=False):
+    """Observed inputs of the path integral -> the documented integral (calibrated evaluator) on the native
+    columns `cols` (default: the whole native grid); with components=True also for every component alone."""
+    cols = list(range(len(WN))) if cols is None else list(cols)
+    r = (m.planet.fullRadius + np.asarray(m.altitude_boundaries, dtype=float)).tolist()
+    nl = len(r) - 1
+    tabs = component_tables(m, cols)
+    registered = [c for c, _ in tabs]
+    A = [combine(comps, nl, len(cols)) for _, comps in tabs]
     method = 'new' if m.new_method else 'old'
     L = chord_table(r, method)
-    tau, full, pre = tau_layers(A, None, L, 10.0)
-    T = [[math.exp(-t) for t in row] for row in tau]
+    tau, full, pre = tau_layers_x(A, L, 10.0)
+    T = [[math.exp(-t) if t < 1e300 else 0.0 for t in row] for row in tau]
     depth = depth_of(r, m.star.radius, T)
     bare = (r[0] / m.star.radius) ** 2
     opaque = depth_of(r, m.star.radius, [[0.0] * len(row) for row in tau])
-    alone = {}
+
+    def one(a):
+        ti, _, _ = tau_layers_x([a], L, 10.0)
+        Ti = [[math.exp(-t) if t < 1e300 else 0.0 for t in row] for row in ti]
+        return dict(tau=ti, depth=depth_of(r, m.star.radius, Ti))
+    alone, parts = {}, {}
     names = [c.name for c in registered]
-    for i, c in enumerate(registered):
+    for i, (c, comps) in enumerate(tabs):
         if names.count(c.name) > 1:
             continue            # same-name instances share one entry of the per-source dictionary: not judged per source
-        ti, _, _ = tau_layers([A[i]], None, L, 10.0)
-        Ti = [[math.exp(-t) for t in row] for row in ti]
-        alone[c.name] = dict(tau=ti, depth=depth_of(r, m.star.radius, Ti))
-    return dict(r=r, L=L, tau=tau, full=full, pre=pre, T=T, depth=depth, bare=bare, opaque=opaque, alone=alone)
+        alone[c.name] = one(A[i])
+        if components:
+            parts[c.name] = [(nm, one(a)) for nm, a in comps]
+    # cells of a k-distributed absorber in which EVERY quadrature point underflows exp() (tau_g > 745.2)
+    allunder = 0
+    for a in A:
+        if isinstance(a, KD):
+            for j in range(nl):
+                for w in range(len(cols)):
+                    if min(sum(a.Ag[q][j + i][w] * L[j][i] for i in range(nl - j)) for q in range(len(a.wts))) > 746.0:
+                        allunder += 1
+    return dict(r=r, L=L, tau=tau, full=full, pre=pre, T=T, depth=depth, bare=bare, opaque=opaque, alone=alone,
+                parts=parts, allunder=allunder)
 
 
-def run_e2e(ctx, nruns, max_layers):
+def unbound(m):
+    zb = np.asarray(m.altitude_boundaries, dtype=float)
+    return (not np.all(np.isfinite(zb))) or zb.max() > 3.0 * m.planet.fullRadius
+
+
+def run_e2e(ctx, nruns, max_layers, nk=0):
     rng = random.Random(ctx.seed * 104729 + 1)
     events, evmeta = [], []
     skipped = 0
+    # the correlated-k opacity family (its own random stream: the cross-section runs below are unchanged by it)
+    krng = random.Random(ctx.seed * 15485863 + 7)
+    allunder, nkrun = 0, 0
+    for it in range(nk):
+        nl = krng.choice([2, 3, 5, 8, 13, max_layers])
+
+        def extra(r, sp, _it=it):
+            d = k_extra(r, sp)
+            if _it % 2 == 0:
+                d.update(rayleigh=False, cia=False)     # every source scalable by the harness: monotone clause evaluated
+            if _it % 4 == 1:
+                d.update(table=False)                   # the k-distributed absorber alone
+            return d
+        m, spec = build_random_model(krng, nl, extra=extra)
+        if unbound(m):
+            skipped += 1
+            continue
+        ev = e2e_one(ctx, m, spec, events, evmeta, krng)
+        nkrun += 1
+        allunder += ev['allunder'] if ev else 0
+    KMODE.disable()
+    if nk:
+        ctx.note('correlated-k whole-model runs: %d, cells underflowing at every quadrature point: %d' % (nkrun, allunder))
+        if allunder == 0 and not ctx.has_violations():
+            raise Machinery('vacuous: no k-table run had a cell that underflows at every quadrature point')
     for it in range(nruns):
         nl = rng.choice([2, 3, 4, 5, 7, 10, 13, 20, max_layers]) if it % 3 else rng.randint(2, max_layers)
         m, spec = build_random_model(rng, nl)
-        zb = np.asarray(m.altitude_boundaries, dtype=float)
-        if not np.all(np.isfinite(zb)) or zb.max() > 3.0 * m.planet.fullRadius:
+        if unbound(m):
             # hot, low-gravity planet over many pressure decades: the hydrostatic altitude runs away
             # (unbound atmosphere, z -> inf).  The documented integral is not defined there: skipped.
             skipped += 1
@@ -331,13 +542,23 @@ def run_e2e(ctx, nruns, max_layers):
 
 
 def e2e_one(ctx, m, spec, events, evmeta, rng, paired=True):
-    grid, depth, T, _ = m.model()
-    depth = np.asarray(depth, dtype=float)
-    T = np.asarray(T, dtype=float)
+    cls = '%s:%dL%s' % ('new' if spec['new'] else 'old', 1 if spec['nl'] < 5 else 2, ':ktable' if spec.get('kt') else '')
+    vec = dict(e2e=spec)
+    try:
+        grid, depth, T, _ = m.model()
+        depth = np.asarray(depth, dtype=float)
+        T = np.asarray(T, dtype=float)
+    except Machinery:
+        raise
+    except Exception as e:   # noqa  (an exception for an input inside the quantifier is a verdict)
+        ctx.verdict('model_depth', False, cls=cls + ':raised', detail='model() raised %s: %s' % (type(e).__name__, e), vector=vec)
+        return None
+    if T.shape != (spec['nl'], len(WN)) or depth.shape != (len(WN),):
+        ctx.verdict('model_depth', False, cls=cls + ':shape', detail='model() returned depth %r, transmittance %r for %d layers x %d wavenumbers'
+                    % (depth.shape, T.shape, spec['nl'], len(WN)), vector=vec)
+        return None
     ev = evaluate_run(m)
     nl, nw = T.shape
-    cls = '%s:%dL' % ('new' if spec['new'] else 'old', 1 if nl < 5 else 2)
-    vec = dict(e2e=spec)
     # (1) transmittance per layer / wavenumber
     ok, detail = True, ''
     for j in range(nl):
@@ -410,14 +631,174 @@ def e2e_one(ctx, m, spec, events, evmeta, rng, paired=True):
         except Exception as e:   # noqa
             ctx.verdict('source_depth', False, cls=cls + ':raised', detail='%s: %s' % (type(e).__name__, e), vector=vec)
     # (5) monotone under scaling of every cross-section (only sources the harness can scale)
-    if paired and not spec['rayleigh'] and not spec['cia'] and rng.random() < 0.6:
+    if paired and not spec['rayleigh'] and not spec['cia'] and (rng.random() < 0.6 or spec.get('kt')):
         k = rng.choice([1.5, 2.0, 10.0])
         m2, _ = build_random_model(rng, spec['nl'], scale=k, spec=spec)
-        _, depth2, _, _ = m2.model()
-        depth2 = np.asarray(depth2, dtype=float)
-        ctx.verdict('monotone_in_cross_section', bool(np.all(depth2 >= depth - slack - 1e-12 * depth)), cls=cls,
+        try:
+            depth2 = np.asarray(m2.model()[1], dtype=float)
+            okm = depth2.shape == depth.shape and bool(np.all(depth2 >= depth - slack - 1e-12 * depth))
+        except Machinery:
+            raise
+        except Exception as e:   # noqa
+            depth2, okm = np.array([]), False
+        ctx.verdict('monotone_in_cross_section', okm, cls=cls,
                     detail='scaled x%r: depth %r -> %r (slack %r)' % (k, depth.tolist(), depth2.tolist(), slack),
                     vector=dict(e2e=spec, scale=k))
+    return ev
+
+
+# ----------------------------------------------------------------------------
+# binding C: the public entry points x grid sizes on one long-lived model (spec/MC_TransRoutes.tla)
+# ----------------------------------------------------------------------------
+
+# the requestable grids of the specification (MCWSize = <<5, 2, 3>>): the native grid and two sub-ranges of it
+ROUTE_WINS = {1: None, 2: np.array([2000.0, 2500.0, 3000.0]), 3: np.array([3000.0, 3500.0, 4000.0, 4500.0, 5000.0])}
+
+
+def routes_extra(kt):
+    def extra(rng, sp):
+        d = dict(ngas=2, rayleigh=True, table=True, table_dup=False, nl=rng.choice([2, 3, 4, 6, 9]),
+                 mag=[rng.choice([-30, -27, -25, -23]) for _ in range(2)], tabmag=rng.choice([-30, -26]))
+        d['temps'] = [rng.choice([300.0, 800.0, 1500.0, 2500.0]) for _ in range(d['nl'])]
+        if kt:
+            d.update(k_extra(rng, d))
+        return d
+    return extra
+
+
+def call_route(m, route, win):
+    """-> (returned grid, [(contribution name | None, component name | None, depth, transmittance), ...])"""
+    g = ROUTE_WINS[win]
+    g = None if g is None else g.copy()
+    if route == 'model':
+        grid, depth, T, _ = m.model(wngrid=g)
+        return grid, [(None, None, depth, T)]
+    if route == 'contrib':
+        grid, per = m.model_contrib(wngrid=g)
+        return grid, [(name, None, v[0], v[1]) for name, v in per.items()]
+    grid, per = m.model_full_contrib(wngrid=g)
+    return grid, [(name, comp[0], comp[1], comp[2]) for name, lst in per.items() for comp in lst]
+
+
+def same_as_integral(depth, T, ref, nl, n):
+    """the returned depth / transmittance of one entry against the documented integral of its own absorbers:
+    -> (number of wavenumbers at which both agree, detail).  Tolerance: 1e-9 relative on the optical depth
+    (the chord segments are differences of square roots of differences of squares ~ R^2: 1e-12..1e-10 relative
+    between two correct evaluations), +1e-12 absolute for optical depths recovered from exp(-tau) ~ 1."""
+    try:
+        d = np.asarray(depth, dtype=float)
+        T = np.asarray(T, dtype=float)
+    except Exception as e:   # noqa
+        return 0, 'not numeric: %s' % e
+    if d.shape != (n,) or T.shape != (nl, n):
+        return 0, 'depth of shape %r, transmittance of shape %r for %d layers x %d wavenumbers' % (d.shape, T.shape, nl, n)
+    good, detail = 0, ''
+    for w in range(n):
+        ok = close(d[w], ref['depth'][w], rel=1e-9)
+        for j in range(nl if ok else 0):
+            te = ref['tau'][j][w]
+            to = -math.log(T[j, w]) if T[j, w] > 0 else float('inf')
+            if (te > 700 and not T[j, w] < 1e-290) or (te <= 700 and not abs(to - te) <= 1e-9 * max(1.0, te) + 1e-12):
+                ok = False
+                detail = detail or 'wn %d layer %d: optical depth %r, documented integral %r' % (w, j, to, te)
+                break
+        if ok:
+            good += 1
+        elif not detail:
+            detail = 'wn %d: depth %r, documented integral %r' % (w, float(d[w]), ref['depth'][w])
+    return good, detail
+
+
+class RouteOracle:
+    """the documented integrals of one scenario on any set of native columns, from a reference model that is
+    only ever evaluated once, on the whole grid (so nothing here depends on the history under test)"""
+
+    def __init__(self, spec):
+        self.m, _ = build_random_model(None, spec['nl'], spec=spec)
+        self.m.model()
+        self.cache = {}
+
+    def on(self, cols):
+        key = tuple(cols)
+        if key not in self.cache:
+            self.cache[key] = evaluate_run(self.m, cols, components=True)
+        return self.cache[key]
+
+
+def replay_walk(ctx, spec, walk, oracle, label):
+    """one exported history on ONE freshly built long-lived model; a verdict per call.  -> all ok?"""
+    m, _ = build_random_model(None, spec['nl'], spec=spec)
+    trail, allok = [], True
+    for step in walk:
+        route, win = step['route'], step['win']
+        trail.append('%s@%d' % (route, win))
+        ok, detail = True, ''
+        try:
+            grid, entries = call_route(m, route, win)
+            grid = np.asarray(grid, dtype=float)
+            cols = [int(np.argmin(np.abs(WN - x))) for x in grid]
+            if len(grid) != step['pts'] or any(WN[c] != x for c, x in zip(cols, grid)):
+                ok, detail = False, 'returned grid %r, the specification has %d native points' % (grid.tolist(), step['pts'])
+            else:
+                ev = oracle.on(cols)
+                nl, n = spec['nl'], len(cols)
+                if route == 'model':
+                    want = {(None, None): ev}
+                elif route == 'contrib':
+                    want = {(name, None): ref for name, ref in ev['alone'].items()}
+                else:
+                    want = {(name, comp): ref for name, lst in ev['parts'].items() for comp, ref in lst}
+                got = {}
+                for name, comp, depth, T in entries:
+                    got.setdefault((name, comp), []).append((depth, T))
+                if set(got) != set(want) or any(len(v) != 1 for v in got.values()):
+                    ok, detail = False, 'returned entries %r, expected %r' % (sorted(map(str, got)), sorted(map(str, want)))
+                for key in (sorted(want, key=str) if ok else []):
+                    good, why = same_as_integral(got[key][0][0], got[key][0][1], want[key], nl, n)
+                    if good != n:
+                        ok, detail = False, 'entry %s: the documented integral of its own absorbers at %d of %d wavenumbers (%s)' % (
+                            '/'.join(str(x) for x in key if x), good, n, why)
+                        break
+        except Machinery:
+            raise
+        except Exception as e:   # noqa
+            ok, detail = False, 'raised %s: %s' % (type(e).__name__, e)
+        ctx.verdict('entry_points', ok, cls='%s:%s' % (label, '>'.join(trail)), detail=detail,
+                    vector=dict(routes=dict(spec=spec, walk=walk)))
+        allok = allok and ok
+        if not ok:
+            break               # the object is in an undocumented state after a wrong / failed call
+    return allok
+
+
+def run_routes(ctx, walks, nmodels):
+    """every exported history of entry points x grid sizes on nmodels random scenarios (the last one in
+    correlated-k mode)."""
+    rng = random.Random(ctx.seed * 7919 + 5)
+    # histories whose grids never shrink first: should a variant loop over more wavenumbers than the arrays of
+    # the call hold, that is reported from the growing histories before a shrinking one could corrupt memory
+    def shrinks(w):
+        return sum(1 for a, b in zip(w, w[1:]) if b['pts'] < a['pts'])
+    walks = sorted(walks, key=lambda w: (shrinks(w), json.dumps(w)))
+    n = 0
+    for i in range(nmodels):
+        kt = (i == nmodels - 1)
+        for _ in range(20):
+            m, spec = build_random_model(rng, 0, extra=routes_extra(kt))
+            if not unbound(m):
+                break
+        else:
+            raise Machinery('no bound atmosphere for the entry-point scenario')
+        label = 'routes%s' % (':ktable' if kt else '')
+        oracle = RouteOracle(spec)
+        for w in walks:
+            n += 1
+            if not replay_walk(ctx, spec, w, oracle, label):
+                ctx.note('entry points: histories after the first violating one are not replayed on scenario %d' % i)
+                break
+    KMODE.disable()
+    ctx.traces += n
+    return n
 
 
 # ----------------------------------------------------------------------------
@@ -465,9 +846,42 @@ def history_scenarios():
     return [OneModel(False), OneModel(True)]
 
 
+K_REFUTED = ('RefuteGuardSaturated', 'RefuteGuardMonotone', 'RefuteRenorm')
+ROUTES_REFUTED = ('RefuteStaleSize', 'RefuteAccumulate', 'RefuteKeepSingle')
+
+
+def check_with_mutants(ctx, label, module, cfg, refuted, need_actions, tag, workers=1):
+    """One TLC run (-continue): the Sound.. / ..Blind invariants hold, exactly the expected-counterexample
+    invariants `refuted` are violated (non-vacuity), and the vectors tagged `tag` are exported."""
+    from ..core import run_tlc
+    res = run_tlc(module, cfg, workers=workers, coverage=True, allow_violation=True, extra=['-continue'])
+    ctx.add_tlc(label, res)
+    got = set(re.findall(r'Invariant (\S+) is violated', res.out))
+    if got != set(refuted):
+        raise Machinery('%s/%s: expected TLC to refute exactly %r, got %r' % (module, cfg, sorted(refuted), sorted(got)))
+    for a in need_actions:
+        if res.action_cov.get(a, (0, 0))[1] == 0:
+            raise Machinery('vacuous: action %s of %s never taken in %s' % (a, module, cfg))
+    if res.distinct == 0:
+        raise Machinery('TLC reported 0 states for %s/%s' % (module, cfg))
+    if tag is None:
+        return []
+    out, seen = [], set()
+    for v in res.tagged(tag):
+        k = repr(v)
+        if k not in seen:
+            seen.add(k)
+            out.append(v)
+    if not out:
+        raise Machinery('%s/%s exported nothing' % (module, cfg))
+    return out
+
+
 def run(ctx):
     q = ctx.tier == 'quick'
-    ctx.bounds = dict(geo='4 (quick) / 5 (thorough) layers, all radii from small sets, both chord methods',
+    ctx.bounds = dict(kd='correlated-k: 3 layers x 2 wavenumbers x 2 quadrature points (thorough also 3), coefficients 0 .. beyond underflow',
+                      routes='histories of %d calls over 3 entry points x 3 grid sizes on one model' % (2 if q else 3),
+                      geo='4 (quick) / 5 (thorough) layers, all radii from small sets, both chord methods',
                       acc='2-3 layers x 2 wavenumbers x 2-3 contributions over value sets incl. saturating ones',
                       abs='3-4 layers, optical depths 0..6 ln2', e2e='random atmospheres 2..%d layers' % (20 if q else 60))
     ctx.assumptions = ['sqrt/exp/log of the platform libm at the harness boundary',
@@ -480,6 +894,13 @@ def run(ctx):
     if not q:
         ctx.check_spec('acc3', 'MC_Transmission', 'MC_Trans_acc3_thorough.cfg', timeout=1800)
         ctx.check_spec('acc4', 'MC_Transmission', 'MC_Trans_acc4_thorough.cfg', timeout=1800)
+    # round 4: the correlated-k family and the entry-point histories; one TLC run each checks the clauses on the
+    # documented variant, requires the expected counterexamples for the mutants and exports the vectors / histories
+    kvecs = check_with_mutants(ctx, 'kd', 'MC_TransK', 'MC_TransK_quick.cfg', K_REFUTED, ('Evaluate',), 'VEC')
+    if not q:
+        kvecs += check_with_mutants(ctx, 'kd3', 'MC_TransK', 'EX_TransK_3.cfg', K_REFUTED, ('Evaluate',), 'VEC')
+        check_with_mutants(ctx, 'kd-exhaustive', 'MC_TransK', 'MC_TransK_thorough.cfg', K_REFUTED, ('Evaluate',), None, workers=8)
+    walks = check_with_mutants(ctx, 'routes', 'MC_TransRoutes', 'MC_TransRoutes_%s.cfg' % tier, ROUTES_REFUTED, ('Call',), 'ROUTES')
     ctx.exhaustive = True
     vecs = []
     for cfg in ('EX_Trans_geo.cfg', 'EX_Trans_acc.cfg', 'EX_Trans_acc2.cfg', 'EX_Trans_abs.cfg'):
@@ -490,7 +911,7 @@ def run(ctx):
             if k not in seen:
                 seen.add(k)
                 vecs.append(v)
-    ncal = calibrate(vecs)
+    ncal = calibrate(vecs + kvecs)
     ctx.note('oracle calibration: harness evaluator equals TLC exactly on %d exported vectors' % ncal)
     reset_caches()
     for v in vecs:
@@ -501,17 +922,34 @@ def run(ctx):
         else:
             vec_abs(ctx, v)
     ctx.add_sample(dict(vector=vecs[len(vecs) // 2]))
-    run_e2e(ctx, 60 if q else 600, 20 if q else 60)
-    from .. import history
-    history.run_history(ctx, history_scenarios(), 12 if q else 120)
-    reset_caches()
+    try:
+        for v in kvecs:
+            vec_kd(ctx, v)
+        KMODE.disable()
+        ctx.add_sample(dict(vector=kvecs[len(kvecs) // 2]))
+        run_e2e(ctx, 60 if q else 600, 20 if q else 60, nk=16 if q else 120)
+        nr = run_routes(ctx, [w['walk'] for w in walks], 3 if q else 6)
+        ctx.note('entry points: %d exported histories x scenarios replayed (model / model_contrib / model_full_contrib x 3 grid sizes)' % nr)
+        from .. import history
+        history.run_history(ctx, history_scenarios(), 12 if q else 120)
+    finally:
+        KMODE.disable()
+        KMODE.cleanup()
+        reset_caches()
 
 
 def replay(ctx, violations):
     reset_caches()
     for viol in violations:
         v = viol['vector']
-        if 'e2e' in v:
+        if 'routes' in v:
+            spec = v['routes']['spec']
+            replay_walk(ctx, spec, v['routes']['walk'], RouteOracle(spec), 'replay')
+            KMODE.disable()
+        elif v.get('fam') == 'kd':
+            vec_kd(ctx, v)
+            KMODE.disable()
+        elif 'e2e' in v:
             rng = random.Random(1)
             m, spec = build_random_model(rng, v['e2e']['nl'], spec=v['e2e'])
             ev, meta = [], []
@@ -521,6 +959,7 @@ def replay(ctx, violations):
                 d1 = np.asarray(m.model()[1]); d2 = np.asarray(m2.model()[1])
                 ctx.verdict('monotone_in_cross_section', bool(np.all(d2 >= d1 * (1 - 1e-9) - 1e-4 * d1)), cls='replay',
                             detail='%r -> %r' % (d1.tolist(), d2.tolist()), vector=v)
+            KMODE.disable()
         elif v['fam'] == 'geo':
             vec_geo(ctx, v)
         elif v['fam'] == 'acc':
